@@ -4,6 +4,7 @@ CONSTANTS
   MinG = 1
   MaxG = 2
   MaxDepth = 1
+  MinDepth = 0
   MaxIn = 2
   MaxOut = 2
   MaxExtraOut = 1
@@ -11,6 +12,7 @@ CONSTANTS
   LeafChoices <- LeafQuick
   Kinds = {"graph"}
   MaxOutsCard = 9
+  Growing = FALSE
   EmitOn = FALSE
 INIT Init
 NEXT Next
